@@ -25,6 +25,8 @@ pub struct Op {
     pub outcome: String,
     pub status: u16,
     pub snap: i64,
+    #[serde(default)]
+    pub nq: usize,
 }
 
 pub struct Server {
@@ -224,6 +226,55 @@ pub async fn http_query(client: &reqwest::Client, base: &str, ep: &str, sql: &st
     }
 }
 
+pub async fn http_multi(client: &reqwest::Client, base: &str, ep: &str, sqls: &[String]) -> HttpAnswer {
+    let opts = match ep {
+        "multi_json" => None,
+        _ => Some(EncodingOpts { xor_float_compression: ep == "multi_xor", mantissa: None, full_precision_cols: Default::default() }),
+    };
+    post_json(client, format!("{}/multi_query_cols", base), &MultiQueryRequest { queries: sqls.to_vec(), encoding_opts: opts }).await
+}
+
+/// a multi-statement request: one answer per statement, in request order, each equal to the embedded answer; the
+/// status of the first failing statement otherwise
+pub fn compare_multi(ep: &str, sqls: &[String], http: &HttpAnswer, embs: &[Result<locustdb::QueryOutput, QueryError>]) -> Result<(), (String, String)> {
+    let status = match http.status {
+        Some(s) => s,
+        None => return Err(("answered".into(), format!("POST {} {:?}: no HTTP answer ({})", ep, sqls, http.err))),
+    };
+    if let Some(e) = embs.iter().find_map(|e| e.as_ref().err()) {
+        let want = status_of(e);
+        return if status == want { Ok(()) } else { Err(("status".into(), format!("POST {} {:?}: HTTP {} where the embedded API fails with {:?} (expected {})", ep, sqls, status, format!("{}", e).chars().take(80).collect::<String>(), want))) };
+    }
+    if status != 200 {
+        return Err(("status".into(), format!("POST {} {:?}: HTTP {} where the embedded API succeeds", ep, sqls, status)));
+    }
+    let dummy: Result<locustdb::QueryOutput, QueryError> = Err(QueryError::Overflow);
+    if ep == "multi_json" {
+        let v: Value = serde_json::from_slice(&http.body).map_err(|e| ("values".to_string(), format!("body is not JSON: {}", e)))?;
+        let a = v.as_array().cloned().unwrap_or_default();
+        if a.len() != sqls.len() {
+            return Err(("values".into(), format!("POST {} {:?}: {} answers for {} statements", ep, sqls, a.len(), sqls.len())));
+        }
+        for (i, part) in a.iter().enumerate() {
+            let h = HttpAnswer { status: Some(200), body: serde_json::to_vec(part).unwrap(), err: String::new() };
+            compare("query_cols", &sqls[i], &h, &dummy, &embs[i]).map_err(|(o, w)| (o, format!("statement {} of {:?}: {}", i, sqls, w)))?;
+        }
+    } else {
+        let m = match std::panic::catch_unwind(|| MultiQueryResponse::deserialize(&http.body)) {
+            Ok(Ok(m)) => m,
+            _ => return Err(("values".into(), format!("POST {} {:?}: binary body does not decode", ep, sqls))),
+        };
+        if m.responses.len() != sqls.len() {
+            return Err(("values".into(), format!("POST {} {:?}: {} answers for {} statements", ep, sqls, m.responses.len(), sqls.len())));
+        }
+        for (i, r) in m.responses.into_iter().enumerate() {
+            let h = HttpAnswer { status: Some(200), body: MultiQueryResponse { responses: vec![r] }.serialize(), err: String::new() };
+            compare(ep, &sqls[i], &h, &dummy, &embs[i]).map_err(|(o, w)| (o, format!("statement {} of {:?}: {}", i, sqls, w)))?;
+        }
+    }
+    Ok(())
+}
+
 /// compares an HTTP answer with the embedded outcome of the same query on the same database state
 pub fn compare(ep: &str, sql: &str, http: &HttpAnswer, emb_rows: &Result<locustdb::QueryOutput, QueryError>, emb_cols: &Result<locustdb::QueryOutput, QueryError>) -> Result<(), (String, String)> {
     let emb = if ep == "query" { emb_rows } else { emb_cols };
@@ -360,6 +411,30 @@ pub fn replay(s: &Server, ops: &[Op], case: usize, next_batch: &mut usize, seen_
             continue;
         }
         let sql = sql_for(&op.outcome, case + k);
+        if op.nq > 1 && op.ep.starts_with("multi") {
+            // several statements: the statement of the op's class, others that succeed, and a repetition
+            let other = sql_for("ok", case + k + 1).to_string();
+            let sqls: Vec<String> = match (op.outcome.as_str(), op.nq) {
+                ("ok", 2) => vec![sql.to_string(), sql.to_string()],
+                ("ok", _) => vec![sql.to_string(), other, sql.to_string()],
+                (_, 2) => vec![other, sql.to_string()],
+                _ => vec![other.clone(), sql.to_string(), other],
+            };
+            let embs: Vec<_> = sqls.iter().map(|q| embedded(s, q, false)).collect();
+            crate::util::take_panics();
+            let a = s.rt.block_on(http_multi(&s.client, &base, &op.ep, &sqls));
+            if let Some(st) = a.status {
+                *seen_status.entry(st).or_default() += 1;
+            }
+            if let Err((oracle, what)) = compare_multi(&op.ep, &sqls, &a, &embs) {
+                out.push(json!({"oracle": oracle, "ep": op.ep, "sql": sql, "what": what, "panics": crate::util::take_panics()}));
+            }
+            if s.get_status("/hey") != Some(200) {
+                out.push(json!({"oracle": "alive", "ep": op.ep, "sql": sql, "what": format!("after POST {} {:?} the server does not answer GET /hey", op.ep, sqls)}));
+                return out;
+            }
+            continue;
+        }
         let emb_rows = embedded(s, sql, true);
         let emb_cols = embedded(s, sql, false);
         crate::util::take_panics();
